@@ -53,6 +53,33 @@ def run(res):
                               "stack cs%s case `%s`: implementation `%s`, specification (model) `%s`" % (which, d["op"][:200], d["impl"][:300], d["model"][:300]),
                               {"failing_input": d["op"], "implementation": d["impl"], "model": d["model"], "first_differences": diffs[:4]})
                 found = True
+        # the client's command builders (cs104_connection.c:1137-1375) vs Iec.CliCmd.build, through the client differential:
+        # the c.cmd operations call the real send<X>Command functions; the model sends Iec.CliCmd.build's octets
+        from checks import srv_common
+        cn, cdiffs, cli_out, cli_ops, ccrash = srv_common.run_client(res, PID, bdir, lib)
+        total += cn
+        res.cov["client_operations_compared"] = cn
+        outs.append([l for l in cli_out.splitlines() if l.startswith("HISTO")][-1:] or [""])
+        if cdiffs:
+            d = cdiffs[0]
+            for dd in cdiffs:
+                dd["stack"] = "cs104-client"
+            all_diffs += cdiffs
+            if d["op"].startswith("c.cmd") and not ccrash:
+                # a command built differently from the specification is a failing input of the clause "commands issued
+                # through the client API reach the server callbacks with identical parameters": the call itself
+                data = open(cli_ops).read().splitlines()[:d.get("line", 0)]
+                last_new = max([i for i, l in enumerate(data) if l.startswith("c.new")] or [0])
+                al = [l for l in data[last_new:] if l.startswith("c.al") or l.startswith("c.new")][:2]
+                res.violation("client-builder-kind%s" % (d["op"].split() + ["?"])[1],
+                              "client command `%s` (configuration `%s`) puts `%s` on the wire; the command with these parameters is `%s`" % (d["op"][:120], " ; ".join(al)[:160], d["impl"][:300], d["model"][:300]),
+                              {"failing_input": d["op"], "configuration": al, "implementation": d["impl"], "model": d["model"]})
+                found = True
+            elif ccrash:
+                site = asan_site(cli_out)
+                res.violation("crash-%s-client" % (site[0] if site else "unknown"), "sanitizer abort in %s during `%s`" % (site, d["op"][:200]),
+                              {"failing_input": d["op"], "sanitizer": cli_out[-1200:]})
+                found = True
     except BuildError as e:
         all_diffs.append({"op": "<build>", "impl": str(e)[-400:], "model": ""})
     res.cov["traces_validated_against_impl"] = total
@@ -70,6 +97,6 @@ def run(res):
         broken.append("correspondence: " + str(all_diffs[:2])[:600])
     if broken and not found:
         res.violation("tie-or-proof-broken", " | ".join(broken)[:1200], {"no_longer_checks": broken, "first_differences": all_diffs[:4]}, found_input=False)
-    res.assumptions += ["client-side command builders are not modelled (partial)",
+    res.assumptions += ["client-side command builders: the six system-command senders of cs104_connection.c are modelled (Iec.CliCmd) and tied by the client differential; sendProcessCommand(Ex) encode through the codec of C01; the CS101 master's builders go through CS101_ASDU_create / addInformationObject (C01/C12) and are not separately tied",
                         "reset-process and delay-acquisition handlers of the CS104 slave have no public setter; the harness installs them through the included source"]
     return res.finish()
